@@ -200,4 +200,25 @@ theorem c01vw_ckks_zero_lower :
         (intt ((c01w_lv .ckks [97] 0).tbl i) (dec.getD i #[])).getD c 0 = Spec.imod (ν c) ((c01w_lv .ckks [97] 0).q i).value :=
   drv_ckks_encrypt_zero_decrypt c01vw_ctx_ckks c01vw_l97_ok_ckks (c01vw_mode_lower c01w_l_ok_ckks) (by decide)
 
+/-! ### the margins at a realistic size (pure arithmetic; the level bundles at this size cannot be evaluated by the kernel, they are
+    THEOREMS for whatever `mkLevel` returns): N = 8192, three 40-bit primes ≡ 1 mod 2N (the last one the special prime), t = 786433
+    (20 bits, ≡ 1 mod 2N) -/
+
+/-- noise bound through the special prime at N = 8192: BFV / CKKS 4096, BGV 8193 -/
+example : spBound 1099510824961 (21 * (2 * 8192 + 1)) 1 8192 = 4096 ∧ spBound 1099510824961 (21 * (2 * 8192 + 1)) 2 8192 = 8193 := by
+  unfold spBound; decide
+
+/-- BFV margin on the inputs (`drv_bfv_encrypt_decrypt_inputs`) through the special prime, and at the head of the chain -/
+example : 4 * (786433 * (spBound 1099510824961 (21 * (2 * 8192 + 1)) 1 8192 + 1)) ≤ Spec.prodL [1099511480321, 1099510890497] ∧
+    4 * (786433 * (21 * (2 * 8192 + 1) + 1)) ≤ Spec.prodL [1099511480321, 1099510890497, 1099510824961] := by
+  unfold spBound; decide
+
+/-- BGV margin (`drv_bgv_encrypt_decrypt`) through the special prime -/
+example : 2 * (786433 * (spBound 1099510824961 (21 * (2 * 8192 + 1)) 2 8192 + 1)) < Spec.prodL [1099511480321, 1099510890497] := by
+  unfold spBound; decide
+
+/-- CKKS (`drv_ckks_encrypt_decrypt`): plaintext coefficients up to 2^60 through the special prime -/
+example : 2 * (2^60 + spBound 1099510824961 (21 * (2 * 8192 + 1)) 1 8192) < Spec.prodL [1099511480321, 1099510890497] := by
+  unfold spBound; decide
+
 end HC
